@@ -494,6 +494,145 @@ mod pool_sc {
     }
 }
 
+
+mod mig_sc {
+    use super::*;
+    use open_coroutine_core::co_pool::CoroutinePool;
+    use std::sync::atomic::AtomicU32;
+
+    struct Shared(*mut CoroutinePool<'static>);
+    unsafe impl Send for Shared {}
+    impl Shared {
+        fn ptr(&self) -> *mut CoroutinePool<'static> {
+            self.0
+        }
+    }
+    static RUNS: AtomicU32 = AtomicU32::new(0);
+    /// (worker coroutine, controlled thread) at the start and at the end of the task body
+    static WHERE: Mutex<Vec<(String, usize)>> = Mutex::new(Vec::new());
+
+    /// (controlled thread, sees a current suspender, sees a current coroutine) after its scheduling calls
+    static OUTSIDE: Mutex<Vec<(usize, bool, bool)>> = Mutex::new(Vec::new());
+
+    fn outside() -> Vec<(usize, bool, bool)> {
+        let mut o = OUTSIDE.lock().unwrap().clone();
+        o.sort_unstable();
+        o
+    }
+
+    fn here() {
+        // (the name ends in a random id: keep the pool's part)
+        let co = open_coroutine_core::scheduler::SchedulableCoroutine::current().map_or(String::new(), |c| c.name().split('@').next().unwrap_or("").to_string());
+        WHERE.lock().unwrap().push((co, TID.with(Cell::get).unwrap_or(99)));
+    }
+
+    /// Two pools on two scheduling threads share the ready queue of coroutines (as every event loop
+    /// does): pool A runs a task that yields `yields` times, pool B has nothing to do - its scheduler
+    /// may take (steal) A's worker coroutine whenever that stands in A's ready queue. Afterwards both
+    /// pools are driven to quiescence and stopped on the harness thread.
+    pub fn exec(prefix: &[usize], em: &mut Emitter, yields: usize) {
+        std::panic::set_hook(Box::new(|_| {}));
+        open_coroutine_core::verif::clock_enable(T0);
+        init(&["sched:pop"], false);
+        let a: &'static mut CoroutinePool<'static> = Box::leak(Box::new(CoroutinePool::new("mig-a".to_string(), 64 * 1024, 0, 2, 0)));
+        let b: &'static mut CoroutinePool<'static> = Box::leak(Box::new(CoroutinePool::new("mig-b".to_string(), 64 * 1024, 0, 2, 0)));
+        let _ = a.submit_task(Some("mig-task".to_string()), move |_| {
+            here();
+            for _ in 0..yields {
+                open_coroutine_core::scheduler::SchedulableSuspender::current().expect("suspender").suspend();
+            }
+            let _ = RUNS.fetch_add(1, Ordering::SeqCst);
+            here();
+            Some(7)
+        }, None, None).expect("submit");
+        let (sa, sb) = (Shared(std::ptr::from_mut(a)), Shared(std::ptr::from_mut(b)));
+        let (pa, pb) = (sa.ptr() as usize, sb.ptr() as usize);
+        for s in [sa, sb] {
+            let _ = spawn(move || {
+                let p = unsafe { &mut *s.ptr() };
+                for _ in 0..2 {
+                    let _ = p.try_schedule_task();
+                }
+                // this thread is outside every coroutine now
+                let sus = open_coroutine_core::scheduler::SchedulableSuspender::current().is_some();
+                let co = open_coroutine_core::scheduler::SchedulableCoroutine::current().is_some();
+                OUTSIDE.lock().unwrap().push((TID.with(Cell::get).unwrap_or(99), sus, co));
+            });
+        }
+        let tr = drive(prefix, 200, Duration::from_millis(300));
+        let mut v = trace_json(&tr);
+        v["t"] = json!("trace");
+        let stuck = tr.deadlock || !tr.stalled.is_empty();
+        let (a, b) = unsafe { (&mut *(pa as *mut CoroutinePool<'static>), &mut *(pb as *mut CoroutinePool<'static>)) };
+        if stuck {
+            // a scheduling thread is still inside try_schedule_task: nothing more can be asked of the pools
+            em.emit(json!({"t":"out","stuck": true, "runs": RUNS.load(Ordering::SeqCst), "running": [a.get_running_size(), b.get_running_size()], "where": *WHERE.lock().unwrap(), "outside": outside(), "order": log_json()}));
+            em.emit(v);
+            return;
+        }
+        // everything the threads left behind is finished here, one pool after the other
+        for _ in 0..4 {
+            let _ = a.try_timed_schedule_task(Duration::from_millis(5));
+            let _ = b.try_timed_schedule_task(Duration::from_millis(5));
+            let _ = open_coroutine_core::verif::clock_advance(Duration::from_millis(2));
+        }
+        let running = [a.get_running_size(), b.get_running_size()];
+        let t = open_coroutine_core::common::now();
+        let stops = [a.stop(Duration::from_millis(200)).is_ok(), b.stop(Duration::from_millis(200)).is_ok()];
+        let stop_ms = (open_coroutine_core::common::now() - t) / 1_000_000;
+        em.emit(json!({"t":"out","stuck": false, "runs": RUNS.load(Ordering::SeqCst), "running": running, "stops_ok": stops, "stops_took_virtual_ms": stop_ms, "where": *WHERE.lock().unwrap(), "outside": outside(), "order": log_json()}));
+        em.emit(v);
+    }
+
+    pub fn judge(yields: usize, prefix: &[usize], res: &ChildResult, rep: &mut Report) {
+        let scen = "ppx.migrate";
+        let replay = json!({"engine":"seqx","scenario":scen,"schedule": prefix, "yields": yields});
+        if !res.exit.ok() {
+            rep.violation(&format!("{scen}/process-survives/{}", res.exit.describe()), format!("schedule prefix {prefix:?}: the process {}", res.exit.describe()), replay);
+            return;
+        }
+        let (Some(out), Some(tr)) = (res.last("out"), res.last("trace")) else {
+            rep.machinery_errors.push(format!("{scen}: incomplete records for prefix {prefix:?}"));
+            return;
+        };
+        let order: Vec<String> = out["order"].as_array().unwrap().iter().map(|x| x.as_str().unwrap().to_string()).collect();
+        let _ = rep.nontrivial.insert(order.join(","));
+        let sched = tr["decisions"].as_array().map(|d| d.iter().map(|d| format!("{}", d["chosen"])).collect::<Vec<_>>().join("")).unwrap_or_default();
+        if out["stuck"] == true {
+            rep.violation(&format!("{scen}/scheduling-returns-when-all-work-is-done/a-worker-ran-on-the-other-pools-thread"), format!("schedule (thread chosen at each decision) {sched}: thread(s) {} never came back from try_schedule_task although the only task had run {} time(s) (running sizes {}): a worker coroutine taken over by the other pool's scheduler is counted by the pool that created it, the pool it now serves reports 0 workers, and a worker only ends when its pool counts more workers than its minimum", tr["stalled"], out["runs"], out["running"]), replay);
+            return;
+        }
+        rep.witness("schedules_judged");
+        // did the task's worker change threads (= pools) while the task was suspended?
+        if let Some(w) = out["where"].as_array() {
+            if w.len() == 2 && w[0][0] == w[1][0] && w[0][1] != w[1][1] {
+                rep.witness("schedules_in_which_the_other_pools_scheduler_took_the_worker_over");
+            }
+            if w.first().is_some_and(|x| x[0].as_str().is_some_and(|n| n.starts_with("mig-b"))) {
+                rep.witness("schedules_in_which_the_other_pool_took_the_task");
+            }
+        }
+        if let Some(bad) = out["outside"].as_array().and_then(|a| a.iter().find(|x| x[1] == true || x[2] == true)) {
+            rep.violation_for("C01", &format!("{scen}/a-thread-outside-every-coroutine-sees-no-current-coroutine/after-a-worker-changed-threads"), format!("schedule {sched}: after its scheduling calls had returned, thread T{} still saw a current suspender ({}) / coroutine ({}): the thread-local 'current' records were updated on the wrong thread when a suspended coroutine was resumed by another thread; the next wait on that thread suspends a coroutine that is not running there (an event loop's own thread never comes back from wait_event)", bad[0], bad[1], bad[2]), replay);
+            return;
+        }
+        if out["runs"] != 1 {
+            rep.violation_for("C01", &format!("{scen}/task-runs-exactly-once/-"), format!("schedule {sched}: the task ran {} times", out["runs"]), replay);
+            return;
+        }
+        if out["running"] != json!([0, 0]) {
+            rep.violation(&format!("{scen}/running-size-returns-to-zero/after-a-worker-changed-pools"), format!("schedule {sched}: all work is done and both pools were driven to quiescence, yet they report {} running workers", out["running"]), replay);
+            return;
+        }
+        if out["stops_ok"] != json!([true, true]) || out["stops_took_virtual_ms"].as_u64().unwrap_or(0) >= 200 {
+            rep.violation(&format!("{scen}/stop-is-prompt-when-all-work-is-done/-"), format!("schedule {sched}: stop() of the two idle pools gave {} after {} ms", out["stops_ok"], out["stops_took_virtual_ms"]), replay);
+            return;
+        }
+        // did the other pool's thread take the worker over in this schedule?
+        rep.witness("schedules_ending_quiescent_with_zero_workers");
+    }
+}
+
 #[cfg(feature = "preemptive")]
 mod mon_sc {
     use super::*;
@@ -613,6 +752,12 @@ pub fn run(scen: &str, tier: &str, rep: &mut Report) -> bool {
             rep.require(&["schedules_judged", "schedules_with_completion_inside_the_check_register_window"]);
             (explore(|p, em| pool_sc::exec(p, em, stop, unknown, rewait, twostep, twopools), |p, r, rep| pool_sc::judge(scen, prop, stop, unknown, p, r, rep), rep, &cfg, bound, if thorough { 20_000 } else { 3000 }, deadline), bound)
         }
+        "ppx.migrate" => {
+            let bound = None;
+            let yields = if thorough { 2 } else { 1 };
+            rep.require(&["schedules_judged", "schedules_in_which_the_other_pools_scheduler_took_the_worker_over"]);
+            (explore(|p, em| mig_sc::exec(p, em, yields), |p, r, rep| mig_sc::judge(yields, p, r, rep), rep, &cfg, bound, if thorough { 20_000 } else { 3000 }, deadline), bound)
+        }
         #[cfg(feature = "preemptive")]
         "ppx.mon" => {
             let bound = Some(if thorough { 3 } else { 2 });
@@ -621,7 +766,7 @@ pub fn run(scen: &str, tier: &str, rep: &mut Report) -> bool {
         }
         _ => return false,
     };
-    rep.bounds = json!({"threads": if scen == "ppx.mon" { "2 scheduling threads + the monitor thread" } else if scen == "ppx.wait2" { "waiter on the accepting pool + the thread scheduling a second pool that steals the task" } else { "waiter + scheduling thread" },
+    rep.bounds = json!({"threads": if scen == "ppx.mon" { "2 scheduling threads + the monitor thread" } else if scen == "ppx.migrate" { "two scheduling threads, one per pool; the pools share the ready queue of coroutines" } else if scen == "ppx.wait2" { "waiter on the accepting pool + the thread scheduling a second pool that steals the task" } else { "waiter + scheduling thread" },
         "scheduling_points": "the crate's verif::point hooks listed in the scenario's filter", "preemption_bound": bound, "schedules": ex.schedules, "max_decisions_in_a_schedule": ex.max_decisions, "capped": ex.capped});
     rep.states = ex.schedules;
     rep.transitions = ex.schedules;
@@ -639,6 +784,7 @@ pub fn replay(scen: &str, v: &Value, em: &mut Emitter) -> bool {
         "ppx.stop" => pool_sc::exec(&prefix, em, true, false, false, false, false),
         "ppx.stopwait" => pool_sc::exec(&prefix, em, true, true, false, false, false),
         "ppx.stop2" => pool_sc::exec(&prefix, em, true, true, false, true, false),
+        "ppx.migrate" => mig_sc::exec(&prefix, em, v.get("yields").and_then(Value::as_u64).unwrap_or(1) as usize),
         #[cfg(feature = "preemptive")]
         "ppx.mon" => mon_sc::exec(&prefix, em, v.get("suspends").and_then(Value::as_u64).unwrap_or(0) as usize),
         _ => return false,
